@@ -319,7 +319,7 @@ fn check_pack(idx: u64, list: &[ds::Horizontal], mlist: &[kp::Node], t: Target, 
         acc.count("shifted_box_decides_height_or_depth");
     }
 
-    let case = || json!({"kind": "pack", "list": conv::list_json(list), "target": target_json(t), "font_unit": font.unit(), "text": conv::render(list)});
+    let case = || json!({"kind": "pack", "list": conv::list_json(list), "target": target_json(t), "font_unit": font.unit(), "font_route": if font.overrides_whd() { "overriding repo" } else { "default width_height_depth" }, "text": conv::render(list)});
     let pw = match t {
         Target::Exact(w) => ds::PackWidth::Exact(Scaled(w as i32)),
         Target::Additional(a) => ds::PackWidth::Additional(Scaled(a as i32)),
@@ -710,7 +710,13 @@ fn main() {
             std::process::exit(2);
         };
         match conv::to_model_drop_missing(&list, &|c, f| FONT.metrics(c, f)) {
-            Ok(ml) => check_pack(0, &list, &ml, t, &FONT, &mut acc),
+            Ok(ml) => {
+                if case["font_route"] == "overriding repo" {
+                    check_pack(0, &list, &ml, t, &conv::FontWhd { unit: PT }, &mut acc)
+                } else {
+                    check_pack(0, &list, &ml, t, &FONT, &mut acc)
+                }
+            }
             Err(e) => {
                 eprintln!("replay: {e}");
                 std::process::exit(2);
